@@ -1,8 +1,177 @@
+/-
+Driver mode c02: per case, parse the QP and each solver variant's observables (exact hex
+floats), compute the exact optimum with the active-set oracle, accept it only if `checkKkt`
+certifies it (sound by `Props.C02.checkKkt_sound`), and compare:
+  * SPECFAIL if a variant that flagged nothing unsatisfiable (and threw nothing) deviates from
+    the certified optimum by more than 1e-5 * scale, scale = max(1, max|d_i|, max|gap|);
+  * SPECFAIL if the permuted-order run differs from the original-order run by more than 2e-5*scale;
+  * DIVERGE "oracle-uncertified" if the oracle result is not certified within fuel although the
+    implementation reported nothing unsatisfiable.
+-/
 import Driver.Proto
+import AdaptaVerif.Check.Kkt
 namespace Driver.C02
+open Driver AdaptaVerif.Num AdaptaVerif.Spec.Qp AdaptaVerif.Check.Kkt
 
-def run (_args : List String) : IO UInt32 := do
-  IO.eprintln "driver mode c02: not implemented yet"
-  return 2
+def maxAbs (a : Array Rat) (init : Rat) : Rat := a.foldl (fun m v => if absRat v > m then absRat v else m) init
+
+structure Variant where
+  name : String
+  pos : Option (Array Rat)
+  act : Array Bool
+  uns : Array Bool
+  exc : String
+  deriving Inhabited
+
+def bits (s : String) : Array Bool := (s.toList.filter (fun c => c == '0' || c == '1')).toArray.map (· == '1')
+
+def getVariant (c : Case) (name : String) : Option Variant :=
+  match c.get1 ("exc." ++ name) with
+  | none => none
+  | some e =>
+    some { name := name
+           pos := nums? ((c.get1 ("pos." ++ name)).getD #[])
+           act := bits (((c.get1 ("act." ++ name)).getD #[""])[0]!)
+           uns := bits (((c.get1 ("uns." ++ name)).getD #[""])[0]!)
+           exc := e[0]?.getD "?" }
+
+def tol : Rat := 1 / 100000
+
+/-- decimal rendering with ~9 significant fractional digits, for messages only -/
+def approx (r : Rat) : String :=
+  let sgn := if r < 0 then "-" else ""
+  let a := absRat r
+  let scaled : Nat := (a * 1000000000).floor.toNat
+  let ip := scaled / 1000000000
+  let fp := scaled % 1000000000
+  let fs := toString fp
+  sgn ++ toString ip ++ "." ++ String.ofList (List.replicate (9 - fs.length) '0') ++ fs
+
+def maxDev (a b : Array Rat) : Rat × Nat := Id.run do
+  let mut best : Rat := 0
+  let mut ix := 0
+  for i in [0:a.size] do
+    let dv := absRat (a[i]! - b.getD i 0)
+    if dv > best then
+      best := dv
+      ix := i
+  return (best, ix)
+
+
+def lagrangianTolerance : Rat := 1 / 10000
+
+/-- Why is the implementation's answer not the optimum? Evaluate the implementation's own
+    reported active set exactly (diagnostic text only; the verdict does not depend on it). -/
+def diagnose (c : Case) (xs : Array Rat) (q : QpData) (v : Variant) (p : Array Rat) (scale : Rat) : String :=
+  -- premature stop: calling solve() again on the same live solver reaches the certified optimum
+  let xname := v.name ++ "x"
+  let reached : Bool := match getVariant c xname with
+    | some vx => vx.exc == "none" && (match vx.pos with
+        | some px => px.size == xs.size && (maxDev px xs).1 ≤ tol * scale
+        | none => false)
+    | none => false
+  if reached then "cause=premature-stop-repeated-solve-reaches-optimum" else
+  match Oracle.evalActive q (Oracle.adjacency q) v.act with
+  | none => "cause=active-set-not-a-forest"
+  | some st => Id.run do
+    let (dv, _) := maxDev p st.x
+    if dv > tol * scale / 10 then
+      return s!"cause=positions-differ-from-own-active-set by={approx dv}"
+    let mut minlm : Rat := 0
+    let mut arg := 0
+    for k in [0:q.cons.size] do
+      if v.act.getD k false && !q.cons[k]!.eq && st.lam[k]! < minlm then
+        minlm := st.lam[k]!
+        arg := k
+    if minlm < -lagrangianTolerance then
+      return s!"cause=returned-with-splittable-constraint minlm={approx minlm} con={arg}"
+    if minlm < 0 then
+      return s!"cause=lm-within-solver-tolerance minlm={approx minlm} con={arg}"
+    return "cause=active-set-kkt-but-infeasible-or-other"
+
+def parseCon (l : Array String) : Option Con :=
+  if l.size < 4 then none else
+  match num? l[2]! with
+  | some g => some { l := nat! l[0]!, r := nat! l[1]!, gap := g, eq := l[3]! == "1" }
+  | none => none
+
+def checkCase (c : Case) : CaseResult := Id.run do
+  let some d := nums? ((c.get1 "d").getD #[]) | return { verdict := .diverge "unparsable d" }
+  let some w := nums? ((c.get1 "w").getD #[]) | return { verdict := .diverge "unparsable w" }
+  let some s := nums? ((c.get1 "s").getD #[]) | return { verdict := .diverge "unparsable s" }
+  let some d2 := nums? ((c.get1 "d2").getD #[]) | return { verdict := .diverge "unparsable d2" }
+  let some cons := (c.get "con").mapM parseCon | return { verdict := .diverge "unparsable con" }
+  let n := d.size
+  let m := cons.size
+  if nat! (((c.get1 "n").getD #["0"])[0]!) != n || nat! (((c.get1 "m").getD #["0"])[0]!) != m then
+    return { verdict := .diverge "size mismatch" }
+  let gapMax := maxAbs (cons.map (·.gap)) 1
+  let scale1 := maxAbs d gapMax
+  let scale2 := maxAbs d2 gapMax
+  let q1 : QpData := { d := d, w := w, s := s, cons := cons }
+  let q2 : QpData := { q1 with d := d2 }
+  let mut stats : List (String × Nat) := []
+  let mut nontrivial := false
+  -- variants grouped by the problem they solve
+  let groups : List (QpData × Rat × List String) :=
+    [(q1, scale1, ["inc", "static", "avoid", "perm", "sperm"]), (q2, scale2, ["inc2", "avoid2"])]
+  let mut fails : Array String := #[]                -- every failing comparison of the case
+  let mut firstPos : Option (Array Rat) := none     -- positions of `inc`, for the order comparison
+  let mut staticPos : Option (Array Rat) := none
+  for (q, scale, names) in groups do
+    let vs := names.filterMap (getVariant c)
+    -- hint: the active set of the first clean variant
+    let clean (v : Variant) : Bool := v.exc == "none" && !v.uns.any id && v.pos.isSome
+    let cleanVs := vs.filter clean
+    for v in vs do
+      if v.exc != "none" then stats := bumpStats stats ("skip.exception." ++ v.exc) 1
+      else if v.uns.any id then stats := bumpStats stats "skip.unsat-flagged" 1
+      else if v.pos.isNone then return { verdict := .specfail s!"non-finite position in variant {v.name}" }
+    if cleanVs.isEmpty then continue
+    let hint := (cleanVs.head!).act
+    match certifiedOptimum q hint with
+    | none =>
+      return { verdict := .diverge s!"oracle-uncertified (variant group of {(cleanVs.head!).name})", stats := stats }
+    | some (xs, lam, iters) =>
+      stats := bumpStats stats "oracle.certified" 1
+      stats := bumpStats stats (if iters == 0 then "oracle.hint-was-optimal" else "oracle.iterated") 1
+      let nact := (lam.filter (· != 0)).size
+      if nact > 0 then nontrivial := true
+      stats := bumpStats stats "active-at-optimum" nact
+      for v in cleanVs do
+        let p := v.pos.getD #[]
+        if p.size != n then return { verdict := .diverge s!"variant {v.name}: wrong number of positions" }
+        let (dv, ix) := maxDev p xs
+        stats := bumpStats stats ("compared." ++ v.name) 1
+        if dv > tol * scale then
+          fails := fails.push s!"not-optimal variant={v.name} var={ix} impl={approx p[ix]!} optimum={approx xs[ix]!} dev={approx dv} tol={approx (tol * scale)} {diagnose c xs q v p scale}"
+          stats := bumpStats stats ("fail." ++ v.name) 1
+          continue
+        if v.name == "inc" then firstPos := some p
+        if v.name == "static" then staticPos := some p
+        if v.name == "perm" || v.name == "sperm" then
+          match (if v.name == "perm" then firstPos else staticPos) with
+          | some p0 =>
+            let (dv2, at2) := maxDev p p0
+            stats := bumpStats stats "compared.order-pair" 1
+            if dv2 > 2 * tol * scale then
+              fails := fails.push s!"order-dependent variant={v.name} var={at2} dev={approx dv2} cause=unexplained"
+          | none => pure ()
+  stats := bumpStats stats (if n ≤ 4 then "n.1-4" else if n ≤ 12 then "n.5-12" else if n ≤ 60 then "n.13-60" else "n.61+") 1
+  if s.any (· != 1) then stats := bumpStats stats "scaled" 1
+  if cons.any (·.eq) then stats := bumpStats stats "with-equalities" 1
+  if fails.size > 0 then
+    -- report a failure without a recognised mechanism first, so that a recognised (possibly
+    -- known) one can never hide it
+    let recognised (m : String) : Bool :=
+      (m.splitOn "cause=premature-stop-repeated-solve-reaches-optimum").length > 1 ||
+      (m.splitOn "cause=lm-within-solver-tolerance").length > 1
+    let pick := (fails.find? (fun m => !recognised m)).getD fails[0]!
+    let more := if fails.size > 1 then s!" (+{fails.size - 1} more failing comparisons in this case)" else ""
+    return { verdict := .specfail (pick ++ more), nontrivial := nontrivial, stats := stats }
+  return { verdict := .ok, nontrivial := nontrivial, stats := stats }
+
+def run (_args : List String) : IO UInt32 :=
+  runCases checkCase
 
 end Driver.C02
